@@ -301,6 +301,13 @@ def r8(ctx):
     c06.r9(ctx)
     c07.r8(ctx)
 
+def r9(ctx):
+    """'a damaged segment stream costs only the affected fragment': a duplicate confirmed link frame must be ACKed and ignored without
+    toggling the expected FCB, else every later confirmed frame (the rest of the fragment and all following ones) is discarded.
+    FCB handling is rule C07.R3 (shared)."""
+    import c07
+    c07.r3(ctx)
+
 RULES = [
     ("C08.R1", "T2", "continuation segments: sequence AND source equality; rejects drop the assembly", r1),
     ("C08.R2", "T2", "no assembly without FIR; FIR restarts; unread fragment replaced", r2),
@@ -310,4 +317,5 @@ RULES = [
     ("C08.R6", "T4/T11", "transport header and sequence masks equal the standard; wrap at 0x3F", r6),
     ("C08.R7", "T3", "reader and writer are reset on every task exit", r7),
     ("C08.R8", "T8/T2", "fragments survive the link receive buffer wrap-around; a broadcast is a single FIR&FIN segment (shared with C06.R9, C07.R8)", r8),
+    ("C08.R9", "T2+T4", "the expected frame-count bit toggles only on delivery (shared with C07.R3)", r9),
 ]
